@@ -172,8 +172,21 @@ fn task_snapshot() -> BTreeMap<u64, (char, u64)> {
 pub fn process_is_stuck(samples: usize, gap_ms: u64) -> (bool, String) {
     let me = thread_self_tid();
     let mut prev = task_snapshot();
+    // logical progress counters of the hooks: failpoint hits and worker census. A run that sleeps in
+    // failpoint delays between tiny steps shows no CPU time but does move these.
+    let progress = || -> u64 {
+        let fp: u64 = verif::fp_stats().iter().map(|(h, _)| *h).sum();
+        let (live, _, total) = verif::census();
+        fp.wrapping_mul(31).wrapping_add(live).wrapping_mul(31).wrapping_add(total)
+    };
+    let mut prev_progress = progress();
     for _ in 0..samples {
         std::thread::sleep(Duration::from_millis(gap_ms));
+        let now_progress = progress();
+        if now_progress != prev_progress {
+            return (false, "hook counters moved (logical progress)".into());
+        }
+        prev_progress = now_progress;
         let cur = task_snapshot();
         if cur.len() != prev.len() {
             return (false, "thread set changed".into());
